@@ -15,8 +15,11 @@ field_type('Database', 'name', 'str')
 # the report generators are assumed to be pure functions of the results object: they are not
 # executed symbolically (pandas / string building); that they reach no write sink is the static
 # obligation C14:static:fs-pure:* (props/C14.py)
-for _g, _ty in (('get_html', {'only_robust': 'bool'}), ('get_latex', {}), ('get_f12', {'robust_std_err': 'bool'})):
-    contract(R + _g, 'C14', verify=False, pure=True, types=_ty, returns='str',
+# get_html / get_latex print the name of their own output file (self.data.htmlFileName / latexFileName): the text is a
+# function of that field too, so "the file holds the report" means the report generated AFTER the fresh name was stored
+for _g, _ty, _reads in (('get_html', {'only_robust': 'bool'}, ['htmlFileName']), ('get_latex', {}, ['latexFileName']),
+                        ('get_f12', {'robust_std_err': 'bool'}, [])):
+    contract(R + _g, 'C14', verify=False, pure=True, reads=_reads, types=_ty, returns='str',
              note='assumed: report generator is a pure function (no file-system effect: static obligation fs-pure)')
 contract('biogeme.tools.database.flatten_database', 'C14', verify=False, pure=True,
          returns='c14.DataFrame',
